@@ -54,7 +54,7 @@ pub fn scenario(seed: u64, idx: u64) -> Scenario {
     entries.push(Entry { path: format!("{}/d/up.txt", root), kind: EntryKind::Symlink("../a.txt".into()) });
     entries.push(Entry { path: format!("{}/d/e/upup.txt", root), kind: EntryKind::Symlink("../../a.txt".into()) });
     entries.push(Entry { path: format!("{}/d/e/side.html", root), kind: EntryKind::Symlink("../index.html".into()) });
-    sc.tree = TreeSpec { root, entries };
+    sc.tree = TreeSpec { root, entries, mtime_mode: 0 };
 
     let n = rng.range(2, 8);
     for i in 0..n {
